@@ -797,6 +797,11 @@ func (c *Concretizer) buildRequest(o *ROp, variant int) ([]byte, int) {
 		case 3:
 			headers["anchorOrigin"] = "https://origin.example/"
 		}
+
+		// (every other such header has no kid: alg and the foreign member are all there is)
+		if o.way(2) == 1 {
+			delete(headers, "kid")
+		}
 	case "extrahdr_b64true":
 		headers["b64"] = true
 	case "extrahdr_b64false":
@@ -807,7 +812,25 @@ func (c *Concretizer) buildRequest(o *ROp, variant int) ([]byte, int) {
 	case "algnone":
 		headers["alg"] = "none"
 	case "algdisallowed":
-		headers["alg"] = "RS256"
+		// (an algorithm that is not allowed: another family, or an allowed name in another letter case - names are
+		// compared as they are)
+		switch o.way(3) {
+		case 0:
+			headers["alg"] = "RS256"
+		case 1:
+			headers["alg"] = strings.ToLower(signer.Alg)
+		case 2:
+			alt := signer.Alg[:1] + strings.ToLower(signer.Alg[1:2]) + signer.Alg[2:]
+			if alt == signer.Alg {
+				alt = strings.ToUpper(signer.Alg)
+			}
+
+			if alt == signer.Alg {
+				alt = "RS256"
+			}
+
+			headers["alg"] = alt
+		}
 	case "noalg":
 		delete(headers, "alg")
 	}
@@ -910,6 +933,15 @@ func (c *Concretizer) buildRequest(o *ROp, variant int) ([]byte, int) {
 	}
 
 	switch o.Wf {
+	case "noreveal":
+		switch o.way(3) {
+		case 0:
+			delete(req, "revealValue")
+		case 1:
+			req["revealValue"] = ""
+		case 2:
+			req["revealValue"] = nil
+		}
 	case "nosuffix":
 		delete(req, "didSuffix")
 	case "nosigneddata":
